@@ -131,12 +131,15 @@ func (d *Disk) point(kind string) {
 }
 
 // begin registers a call. ok=false: the call must have no effect and return err.
-func (d *Disk) begin(op, path, path2 string, mut bool) (idx int, ok bool, err error) {
+func (d *Disk) begin(op, path, path2 string, mut bool, size ...int) (idx int, ok bool, err error) {
 	d.point(op)
 	d.mu.Lock()
 	defer d.mu.Unlock()
 	d.seq++
 	e := Entry{Seq: d.seq, Op: op, Path: d.rel(Resolve(path)), Task: simrt.TaskID()}
+	if len(size) > 0 {
+		e.N = size[0]
+	}
 	if path2 != "" {
 		e.Path2 = d.rel(Resolve(path2))
 	}
@@ -311,7 +314,7 @@ func (f *File) Write(b []byte) (int, error) {
 	if d == nil || f.std {
 		return f.f.Write(b)
 	}
-	idx, ok, err := d.begin("write", f.path, "", true)
+	idx, ok, err := d.begin("write", f.path, "", true, len(b))
 	if !ok {
 		if errors.Is(err, ErrCrashed) && d.CrashedAt != "" && d.Log[idx].Err == "CRASH" && len(b) > 0 {
 			// torn write: a prefix reaches the disk before the process dies
